@@ -195,8 +195,10 @@ pub fn build(tier: Tier) -> Check<'static> {
     }
     {
         let sp = crate::props::c02::sentence_texts();
-        c.parts.push(Part::new("grammar-sentences", sp.len(), "every sentence of the C02 reference-grammar enumeration, plus junk suffixes", move |i, acc| {
-            one(acc, &sp.get(i), false, true, "reference grammar sentence");
+        let pre: [&'static str; 3] = ["", "\n// c\n", " /* c */ `timescale 1ns/1ps\n"];
+        c.parts.push(Part::new("grammar-sentences", sp.len() * 3, "every sentence of the C02 reference-grammar enumeration behind 3 leading trivia forms (none, newline + comment, comment + kept directive), plus junk suffixes", move |i, acc| {
+            let s = format!("{}{}", pre[(i % 3) as usize], sp.get(i / 3));
+            one(acc, &s, false, i % 3 == 0, "reference grammar sentence");
         }));
     }
     {
